@@ -1,9 +1,38 @@
 import JL.Props.C08
+import JL.Props.C07
+import JL.Lemmas.C09
 /-!
 # C09 — `<`, `<=`, `>`, `>=` follow ECMAScript relational comparison, incl. between
+
+`lt_es / lte_es / gt_es / gte_es`: the four models of `js_op::abstract_lt/lte/gt/gte` equal the
+evaluation of the ECMAScript operators (13.10.1, through IsLessThan 7.2.13 and Number::lessThan
+6.1.6.1.12 as formalised in `JL/Spec/ES.lean`, strings ordered by code point as the property
+stipulates), for all pairs of JSON values, with `JsOp.strToNumber` as StringToNumber.
+`lte_iff`: `<=` holds exactly when the converted operands are ≤ (`ES.ConvLe`, a declarative relation).
 -/
 namespace JL.Props.C09
-open JL Json JsOp
+open JL Json JsOp JL.Lemmas.C07 JL.Lemmas.C09 JL.Lemmas.F64Order
+open JL.Spec (ES.lessThan ES.lessEq ES.greaterThan ES.greaterEq ES.ConvLe ES.toNumber ES.toPrimitive ES.NumLe ES.StrLe)
+open JL.Spec.ES (Val ofJson optNumber optRel)
+
+/-! ## model = ECMA-262 -/
+
+/-- `a < b` is the ECMAScript result: ToPrimitive (hint number) both; both strings ⇒ code-point
+lexicographic; otherwise ToNumber both, NaN ⇒ false, else numeric `<` -/
+theorem lt_es (a b : Json) : abstractLt a b = ES.lessThan strToNumber a b := by
+  cases a <;> cases b <;>
+    simp [abstractLt, JsOp.toPrimitive, toPrimitiveNumber, ES.lessThan, Spec.ES.isLessThan, Val.isLessThan, ofJson,
+      Val.toPrimitive, toNumber_boolean, toNumber_string, toNumber_number, toNumber_null, undefinedIsFalse_lt,
+      lt_optNumber_left, lt_optNumber_right, undefinedIsFalse_some] <;>
+    first | rfl | (split <;> simp_all) | grind
+
+/-- `a <= b` is the ECMAScript result (`not (b < a)`, false when that comparison is undefined) -/
+theorem lte_es (a b : Json) : abstractLte a b = ES.lessEq strToNumber a b := by
+  cases a <;> cases b <;>
+    simp [abstractLte, JsOp.toPrimitive, toPrimitiveNumber, ES.lessEq, Spec.ES.isLessThan, Val.isLessThan, ofJson,
+      Val.toPrimitive, toNumber_boolean, toNumber_string, toNumber_number, toNumber_null, falseIsTrue_lt,
+      le_optNumber_left, le_optNumber_right, falseIsTrue_some, strLe] <;>
+    first | rfl | (split <;> simp_all) | grind
 
 /-- `a > b` equals `b < a`: the two separately written Rust bodies are mirror images -/
 theorem gt_flip (a b : Json) : abstractGt a b = abstractLt b a := by
@@ -13,14 +42,245 @@ theorem gt_flip (a b : Json) : abstractGt a b = abstractLt b a := by
 /-- `a >= b` equals `b <= a` -/
 theorem gte_flip (a b : Json) : abstractGte a b = abstractLte b a := rfl
 
+/-- `a > b` is the ECMAScript result, which is `b < a` -/
+theorem gt_es (a b : Json) : abstractGt a b = ES.lessThan strToNumber b a := by rw [gt_flip, lt_es]
+theorem gt_es' (a b : Json) : abstractGt a b = ES.greaterThan strToNumber a b := gt_es a b
+
+/-- `a >= b` is the ECMAScript result, which is `b <= a` -/
+theorem gte_es (a b : Json) : abstractGte a b = ES.lessEq strToNumber b a := by rw [gte_flip, lte_es]
+theorem gte_es' (a b : Json) : abstractGte a b = ES.greaterEq strToNumber a b := gte_es a b
+
+/-- the same with any function proved equal to `strToNumber` (the grammar-level StringToNumber) plugged in -/
+theorem relational_es_of (s2n : Str → Option F64) (h : ∀ s, strToNumber s = s2n s) (a b : Json) :
+    abstractLt a b = ES.lessThan s2n a b ∧ abstractLte a b = ES.lessEq s2n a b ∧
+    abstractGt a b = ES.greaterThan s2n a b ∧ abstractGte a b = ES.greaterEq s2n a b := by
+  have e : strToNumber = s2n := funext h
+  subst e; exact ⟨lt_es a b, lte_es a b, gt_es' a b, gte_es' a b⟩
+
+/-! ## the sentences of the property -/
+
+/-- which operands are string-like: strings, and arrays and objects through their string form -/
+theorem string_like (a : Json) :
+    (∃ s, ES.toPrimitive a = .string s) ↔ ((∃ s, a = .str s) ∨ (∃ xs, a = .arr xs) ∨ (∃ kvs, a = .obj kvs)) := by
+  cases a <;> simp [ES.toPrimitive, ofJson, Val.toPrimitive]
+
+/-- both operands string-like ⇒ lexicographic comparison by code point of the string forms -/
+theorem lt_strings (a b : Json) (s t : Str) (ha : ES.toPrimitive a = .string s) (hb : ES.toPrimitive b = .string t) :
+    abstractLt a b = strLt s t ∧ abstractLte a b = strLe s t ∧ abstractGt a b = strLt t s ∧ abstractGte a b = strLe t s := by
+  refine ⟨?_, ?_, ?_, ?_⟩
+  · rw [lt_es, lessThan_strings _ ha hb]
+  · rw [lte_es, lessEq_strings _ ha hb]
+  · rw [gt_es, lessThan_strings _ hb ha]
+  · rw [gte_es, lessEq_strings _ hb ha]
+
+/-- otherwise both are converted to numbers (null and false 0, true 1, strings by StringToNumber) and
+compared numerically, and a comparison with a non-numeric conversion is false -/
+theorem lt_numbers (a b : Json) (h : ¬ BothStrings a b) :
+    abstractLt a b = optRel F64.lt (ES.toNumber strToNumber a) (ES.toNumber strToNumber b) ∧
+    abstractLte a b = optRel F64.le (ES.toNumber strToNumber a) (ES.toNumber strToNumber b) := by
+  constructor
+  · rw [lt_es, lessThan_numbers _ h]
+  · rw [lte_es, lessEq_numbers _ h]
+
+/-- a non-numeric conversion (NaN) on either side makes all four comparisons false -/
+theorem nan_false (a b : Json) (h : ¬ BothStrings a b)
+    (hn : ES.toNumber strToNumber a = none ∨ ES.toNumber strToNumber b = none) :
+    abstractLt a b = false ∧ abstractLte a b = false ∧ abstractGt a b = false ∧ abstractGte a b = false := by
+  have h' : ¬ BothStrings b a := mt bothStrings_comm.mp h
+  rw [gt_flip, gte_flip, (lt_numbers a b h).1, (lt_numbers a b h).2, (lt_numbers b a h').1, (lt_numbers b a h').2]
+  rcases hn with hn | hn <;> rw [hn] <;> cases ES.toNumber strToNumber _ <;> simp [optRel]
+
+/-- `<=` holds exactly when the converted operands are less or equal -/
+theorem lte_iff (a b : Json) : abstractLte a b = true ↔ ES.ConvLe strToNumber a b := by
+  rw [lte_es]; exact lessEq_iff_convLe _ a b
+
+theorem gte_iff (a b : Json) : abstractGte a b = true ↔ ES.ConvLe strToNumber b a := lte_iff b a
+
+/-- the cases the property names: `null` against `0`, an array against an equal-looking array, `{}` against `{}` -/
+example : abstractLte .null (.num (.pos 0)) = true ∧ abstractGte .null (.num (.pos 0)) = true := by decide +kernel
+example : abstractLte (.arr [.num (.pos 1)]) (.arr [.num (.pos 1)]) = true := by decide +kernel
+example : abstractLte (.obj []) (.obj []) = true ∧ abstractGte (.obj []) (.obj []) = true := by decide +kernel
+/-- the right-hand side of `lte_iff` for those cases, built directly from the declarative relation -/
+example : ES.ConvLe strToNumber .null (.num (.pos 0)) :=
+  .numbers (x := .fin false 0) (y := .fin false 0) (fun ⟨_, _, h, _⟩ => by cases h) rfl (by decide +kernel)
+    (.fin_fin _ _ _ _ (by decide))
+example : ES.ConvLe strToNumber (.arr [.num (.pos 1)]) (.arr [.num (.pos 1)]) :=
+  have h : JsOp.toString (.arr [.num (.pos 1)]) = ['1'] := by decide +kernel
+  .strings (s := ['1']) (t := ['1']) (congrArg Val.string h) (congrArg Val.string h) (.inr rfl)
+example : ES.ConvLe strToNumber (.obj []) (.obj []) := .strings rfl rfl (.inr rfl)
+/-- and it fails where it should: `1 <= "inf"` (NaN), `2 <= 1` -/
+example : ¬ ES.ConvLe strToNumber (.num (.pos 1)) (.str "inf".toList) := by
+  rw [← lte_iff]; decide +kernel
+example : ¬ ES.ConvLe strToNumber (.num (.pos 2)) (.num (.pos 1)) := by
+  rw [← lte_iff]; decide +kernel
+
+/-- … and in general: every string-like value (so every array and object) is `<=` and `>=` anything with the same string form -/
+theorem lte_same_string (a b : Json) (s : Str) (ha : ES.toPrimitive a = .string s) (hb : ES.toPrimitive b = .string s) :
+    abstractLte a b = true ∧ abstractGte a b = true := by
+  rw [(lt_strings a b s s ha hb).2.1, (lt_strings a b s s ha hb).2.2.2]
+  simp [strLe_refl]
+theorem lte_refl_arr (xs : List Json) : abstractLte (.arr xs) (.arr xs) = true :=
+  (lte_same_string _ _ _ rfl rfl).1
+theorem lte_refl_obj (kvs kvs' : List (Str × Json)) : abstractLte (.obj kvs) (.obj kvs') = true :=
+  (lte_same_string (.obj kvs) (.obj kvs') "[object Object]".toList rfl rfl).1
+/-- null, false, `""`, `[]` against any spelling of zero -/
+theorem lte_null_zero (b : Json) (sgn : Bool) (hb : ES.toNumber strToNumber b = some (.fin sgn 0)) (hs : ∀ s, ES.toPrimitive b ≠ .string s) :
+    abstractLte .null b = true ∧ abstractGte .null b = true := by
+  have h1 : ¬ BothStrings .null b := fun ⟨_, t, _, h⟩ => hs t h
+  have h2 : ¬ BothStrings b .null := fun ⟨s, _, h, _⟩ => hs s h
+  rw [gte_flip, (lt_numbers _ _ h1).2, (lt_numbers _ _ h2).2, hb]
+  cases sgn <;> simp [ES.toNumber, F64.le, F64.zero, optRel]
+example : ES.toNumber strToNumber (.num (.flt (.fin true 0))) = some (.fin true 0) ∧
+    (∀ s, ES.toPrimitive (.num (.flt (.fin true 0))) ≠ .string s) := ⟨rfl, fun _ h => by cases h⟩
+
+/-- `<=` is `<` or `==` of the converted operands: numbers -/
+theorem lte_numbers_iff (a b : Json) (h : ¬ BothStrings a b) :
+    abstractLte a b = true ↔ ∃ x y, ES.toNumber strToNumber a = some x ∧ ES.toNumber strToNumber b = some y ∧
+      (F64.lt x y = true ∨ F64.eq x y = true) := by
+  rw [(lt_numbers a b h).2]
+  cases ES.toNumber strToNumber a <;> cases ES.toNumber strToNumber b <;> simp [le_eq_lt_or_eq, optRel]
+
+/-- `<` implies `<=` -/
+theorem lt_imp_lte (a b : Json) (h : abstractLt a b = true) : abstractLte a b = true := by
+  by_cases hs : BothStrings a b
+  · obtain ⟨s, t, ha, hb⟩ := hs
+    rw [(lt_strings a b s t ha hb).1] at h
+    rw [(lt_strings a b s t ha hb).2.1, strLe_iff]; exact .inl h
+  · rw [(lt_numbers a b hs).1] at h
+    rw [(lt_numbers a b hs).2]
+    generalize ES.toNumber strToNumber a = oa at h ⊢
+    generalize ES.toNumber strToNumber b = ob at h ⊢
+    cases oa <;> cases ob <;> simp_all [le_of_lt, optRel]
+
+/-- `==` implies `<=` (and, `==` being symmetric, `>=`) -/
+theorem eq_imp_lte (a b : Json) (h : abstractEq a b = true) : abstractLte a b = true := by
+  cases a <;> cases b <;>
+    simp only [abstractEq, eqNoBool, eqPrim, boolNum] at h <;>
+    simp only [abstractLte, JsOp.toPrimitive, toPrimitiveNumber, toString_str]
+  all_goals try (simp only [Bool.false_eq_true] at h; done)
+  all_goals try (exact le_of_eq _ _ h)
+  all_goals try
+    (split at h
+     · exact le_of_eq _ _ h
+     · simp only [Bool.false_eq_true] at h)
+  all_goals try (rw [eq_of_beq h]; exact strLe_refl _)
+  · simp [F64.le, F64.zero]
+  · have e := eq_of_beq h
+    subst e
+    rename_i x
+    cases x <;> simp [F64.le, F64.one, F64.zero]
+theorem eq_imp_gte (a b : Json) (h : abstractEq a b = true) : abstractGte a b = true :=
+  eq_imp_lte b a (by rw [JL.Props.C07.eq_symm]; exact h)
+
+/-- the converse fails, which is what the unit tests (deriving `<=` expectations from `<` or `==`) miss -/
+example : abstractLte .null (.num (.pos 0)) = true ∧ abstractLt .null (.num (.pos 0)) = false ∧
+    abstractEq .null (.num (.pos 0)) = false := by decide +kernel
+
+/-- when both conversions are comparable (both string-like, or both numeric and not NaN) exactly one of
+`a <= b`, `a > b` holds -/
+theorem lte_eq_not_gt (a b : Json)
+    (h : BothStrings a b ∨ ∃ x y, ES.toNumber strToNumber a = some x ∧ ES.toNumber strToNumber b = some y ∧
+      x.isNaN = false ∧ y.isNaN = false) :
+    abstractLte a b = !abstractGt a b := by
+  by_cases hs : BothStrings a b
+  · obtain ⟨s, t, ha, hb⟩ := hs
+    rw [(lt_strings a b s t ha hb).2.1, (lt_strings a b s t ha hb).2.2.1]; rfl
+  · rcases h with h | ⟨x, y, hx, hy, nx, ny⟩
+    · exact absurd h hs
+    · have hs' : ¬ BothStrings b a := mt bothStrings_comm.mp hs
+      rw [gt_flip, (lt_numbers a b hs).2, (lt_numbers b a hs').1, hx, hy]
+      exact le_eq_not_lt x y nx ny
+example : ∃ x y, ES.toNumber strToNumber (.str " 12 ".toList) = some x ∧ ES.toNumber strToNumber (.bool true) = some y ∧
+    x.isNaN = false ∧ y.isNaN = false := ⟨.fin false (12 * F64.S), F64.one, by decide +kernel, rfl, rfl, rfl⟩
+
+/-! ## operator level -/
+
 /-- the three-operand form is the conjunction of the two adjacent comparisons (a between test) -/
 theorem between (f : Json → Json → Bool) (a b c : Json) :
     compare f [a, b, c] = ⟨[], .ok (.bool (f a b && f b c))⟩ := rfl
 theorem two_operands (f : Json → Json → Bool) (a b : Json) : compare f [a, b] = ⟨[], .ok (.bool (f a b))⟩ := rfl
 
+theorem op_lt2 (a b : Json) : execEager "<".toList [a, b] = ⟨[], .ok (.bool (abstractLt a b))⟩ := by simp [execEager, compare]
+theorem op_lte2 (a b : Json) : execEager "<=".toList [a, b] = ⟨[], .ok (.bool (abstractLte a b))⟩ := by simp [execEager, compare]
+theorem op_gt2 (a b : Json) : execEager ">".toList [a, b] = ⟨[], .ok (.bool (abstractLt b a))⟩ := by simp [execEager, compare, gt_flip]
+theorem op_gte2 (a b : Json) : execEager ">=".toList [a, b] = ⟨[], .ok (.bool (abstractLte b a))⟩ := by simp [execEager, compare, abstractGte]
+
 theorem op_lt3 (a b c : Json) : execEager "<".toList [a, b, c] = ⟨[], .ok (.bool (abstractLt a b && abstractLt b c))⟩ := by simp [execEager, compare]
 theorem op_lte3 (a b c : Json) : execEager "<=".toList [a, b, c] = ⟨[], .ok (.bool (abstractLte a b && abstractLte b c))⟩ := by simp [execEager, compare]
 theorem op_gt3 (a b c : Json) : execEager ">".toList [a, b, c] = ⟨[], .ok (.bool (abstractLt b a && abstractLt c b))⟩ := by simp [execEager, compare, gt_flip]
 theorem op_gte3 (a b c : Json) : execEager ">=".toList [a, b, c] = ⟨[], .ok (.bool (abstractLte b a && abstractLte c b))⟩ := by simp [execEager, compare, abstractGte]
+
+/-- operands beyond the third are ignored (the operator table allows 2 or 3, C02) -/
+theorem op_lt_more (a b c : Json) (rest : List Json) :
+    execEager "<".toList (a :: b :: c :: rest) = execEager "<".toList [a, b, c] := by simp [execEager, compare]
+theorem op_lte_more (a b c : Json) (rest : List Json) :
+    execEager "<=".toList (a :: b :: c :: rest) = execEager "<=".toList [a, b, c] := by simp [execEager, compare]
+theorem op_gt_more (a b c : Json) (rest : List Json) :
+    execEager ">".toList (a :: b :: c :: rest) = execEager ">".toList [a, b, c] := by simp [execEager, compare]
+theorem op_gte_more (a b c : Json) (rest : List Json) :
+    execEager ">=".toList (a :: b :: c :: rest) = execEager ">=".toList [a, b, c] := by simp [execEager, compare]
+
+/-- the operators on evaluated operands are the ECMAScript operators -/
+theorem op_lt2_es (a b : Json) : execEager "<".toList [a, b] = ⟨[], .ok (.bool (ES.lessThan strToNumber a b))⟩ := by
+  rw [op_lt2, lt_es]
+theorem op_lte2_es (a b : Json) : execEager "<=".toList [a, b] = ⟨[], .ok (.bool (ES.lessEq strToNumber a b))⟩ := by
+  rw [op_lte2, lte_es]
+theorem op_gt2_es (a b : Json) : execEager ">".toList [a, b] = ⟨[], .ok (.bool (ES.greaterThan strToNumber a b))⟩ := by
+  rw [op_gt2, lt_es]; rfl
+theorem op_gte2_es (a b : Json) : execEager ">=".toList [a, b] = ⟨[], .ok (.bool (ES.greaterEq strToNumber a b))⟩ := by
+  rw [op_gte2, lte_es]; rfl
+/-- three operands: the conjunction of the two adjacent ECMAScript comparisons -/
+theorem op_lt3_es (a b c : Json) : execEager "<".toList [a, b, c] =
+    ⟨[], .ok (.bool (ES.lessThan strToNumber a b && ES.lessThan strToNumber b c))⟩ := by rw [op_lt3, lt_es, lt_es]
+theorem op_lte3_es (a b c : Json) : execEager "<=".toList [a, b, c] =
+    ⟨[], .ok (.bool (ES.lessEq strToNumber a b && ES.lessEq strToNumber b c))⟩ := by rw [op_lte3, lte_es, lte_es]
+theorem op_gt3_es (a b c : Json) : execEager ">".toList [a, b, c] =
+    ⟨[], .ok (.bool (ES.greaterThan strToNumber a b && ES.greaterThan strToNumber b c))⟩ := by rw [op_gt3, lt_es, lt_es]; rfl
+theorem op_gte3_es (a b c : Json) : execEager ">=".toList [a, b, c] =
+    ⟨[], .ok (.bool (ES.greaterEq strToNumber a b && ES.greaterEq strToNumber b c))⟩ := by rw [op_gte3, lte_es, lte_es]; rfl
+
+/-- `a > b` equals `b < a`, `a >= b` equals `b <= a`, at operator level -/
+theorem op_gt_flip (a b : Json) : execEager ">".toList [a, b] = execEager "<".toList [b, a] := by rw [op_gt2, op_lt2]
+theorem op_gte_flip (a b : Json) : execEager ">=".toList [a, b] = execEager "<=".toList [b, a] := by rw [op_gte2, op_lte2]
+/-- the between forms mirror too: `a > b > c` is `c < b < a` -/
+theorem op_gt3_flip (a b c : Json) : execEager ">".toList [a, b, c] = execEager "<".toList [c, b, a] := by
+  rw [op_gt3, op_lt3, Bool.and_comm]
+theorem op_gte3_flip (a b c : Json) : execEager ">=".toList [a, b, c] = execEager "<=".toList [c, b, a] := by
+  rw [op_gte3, op_lte3, Bool.and_comm]
+
+/-! ## corner cases (model and spec, evaluated in the kernel) -/
+section examples
+private def s (x : String) : Json := .str x.toList
+private def n (k : Nat) : Json := .num (.pos k)
+
+example : abstractLt (s "a") (s "b") = true ∧ abstractLt (s "b") (s "a") = false ∧ abstractLte (s "a") (s "a") = true := by decide +kernel
+example : ES.lessThan strToNumber (s "a") (s "b") = true := by decide +kernel
+-- strings against strings are never converted: "10" < "9", but 10 < "9" is false
+example : abstractLt (s "10") (s "9") = true ∧ abstractLt (n 10) (s "9") = false ∧ abstractLt (s "10") (n 9) = false := by decide +kernel
+-- prefix order, code-point order beyond the BMP (UTF-16 order would differ: U+FFFF vs U+10000)
+example : abstractLt (s "ab") (s "abc") = true ∧ abstractLt (.str [Char.ofNat 0xFFFF]) (.str [Char.ofNat 0x10000]) = true := by decide +kernel
+-- non-numeric conversion: every comparison false
+example : abstractLt (n 1) (s "inf") = false ∧ abstractLte (n 1) (s "inf") = false ∧ abstractGt (n 1) (s "inf") = false ∧
+    abstractGte (n 1) (s "inf") = false := by decide +kernel
+example : ES.lessThan strToNumber (n 1) (s "inf") = false ∧ ES.lessEq strToNumber (n 1) (s "inf") = false := by decide +kernel
+example : abstractLt (n 1) (s "Infinity") = true ∧ abstractGt (n 1) (s "-Infinity") = true := by decide +kernel
+-- null / booleans / "" / [] numerically
+example : abstractLte .null (n 0) = true ∧ abstractLt .null (n 0) = false ∧ abstractLt .null (n 1) = true ∧
+    abstractLt (.bool false) (.bool true) = true ∧ abstractLte (s "") .null = true ∧ abstractLt (.arr []) (n 1) = true := by decide +kernel
+example : ES.lessEq strToNumber .null (n 0) = true := by decide +kernel
+-- arrays and objects through their string form
+example : abstractLte (.arr [n 1]) (.arr [n 1]) = true ∧ abstractGte (.arr [n 1]) (.arr [n 1]) = true ∧
+    abstractLt (.arr [n 1]) (.arr [n 1]) = false := by decide +kernel
+example : ES.lessEq strToNumber (.arr [n 1]) (.arr [n 1]) = true ∧ ES.lessEq strToNumber (.obj []) (.obj []) = true := by decide +kernel
+example : abstractLt (.arr [n 1, n 2]) (.arr [n 1, n 3]) = true ∧ abstractLt (.arr [n 2]) (n 10) = true ∧
+    abstractLt (.arr [n 2]) (s "10") = false ∧ abstractLte (.obj []) (n 1) = false ∧ abstractLt (s "[") (.obj []) = true := by decide +kernel
+-- -0 and +0; 1 and 1.0
+example : abstractLte (.num (.flt (.fin true 0))) (n 0) = true ∧ abstractLt (.num (.flt (.fin true 0))) (n 0) = false ∧
+    abstractLte (n 1) (.num (.flt F64.one)) = true := by decide +kernel
+-- between
+example : execEager "<".toList [n 1, n 2, n 3] = ⟨[], .ok (.bool true)⟩ ∧ execEager "<".toList [n 1, n 3, n 2] = ⟨[], .ok (.bool false)⟩ ∧
+    execEager "<=".toList [n 1, n 1, s "1"] = ⟨[], .ok (.bool true)⟩ ∧ execEager ">".toList [n 3, n 2, n 1] = ⟨[], .ok (.bool true)⟩ := by
+  simp only [op_lt3, op_lte3, op_gt3]; decide +kernel
+end examples
 
 end JL.Props.C09
